@@ -115,30 +115,30 @@ def r2_defaults(ctx):
     if calls[0].args:
         raise AnalysisError(f'{dflt.loc}: positional arguments in ExportOptions.default')
     sig_defaults = {p: F.param_default(init, p) for p in init.params[1:]}
-    stores = {}
-    for n in walk_local(init.node):
-        if isinstance(n, ast.Assign) and isinstance(n.targets[0], ast.Attribute) and F.is_name(n.targets[0].value, 'self'):
-            stores[n.targets[0].attr] = n.value
+    table = F.store_table(init)
+    stores = {k[len('self.'):]: rows for k, rows in table.items() if k.startswith('self.') and '.' not in k[len('self.'):]}
     ctx.expect_count('R2', 'option fields', len(stores), 8)
-    for field, expr in sorted(stores.items()):
-        at = f'{init.module.relpath}:{expr.lineno}'
-        # value when the parameter is omitted
-        env = {}
-        bad_eval = False
-        for p, d in sig_defaults.items():
-            if d is None:
-                bad_eval = True
-                continue
-            ok, v = ctx.ce.try_eval(d, init.module)
-            if not ok:
-                bad_eval = True
+    env = {}
+    for p, d in sig_defaults.items():
+        if d is None:
+            continue
+        ok, v = ctx.ce.try_eval(d, init.module)
+        if ok:
             env[p] = v
+    for field, rows in sorted(stores.items()):
+        at = f'{init.module.relpath}:{rows[0][1].lineno if hasattr(rows[0][1], "lineno") else init.node.lineno}'
+        # value when every parameter is omitted: the path whose tests hold for the signature defaults
         ok1, v_init = (False, None)
-        try:
-            v_init = ctx.ce.eval(expr, init.module, None, dict(env))
-            ok1 = True
-        except Exception:
-            ok1 = False
+        for cond, expr, sp in rows:
+            try:
+                taken = all(bool(ctx.ce.eval(c, init.module, None, dict(env))) == t for c, t in sp.conds)
+                if not taken:
+                    continue
+                v_init = ctx.ce.eval(expr, init.module, None, dict(env))
+                ok1 = True
+                break
+            except Exception:
+                continue
         ok2, v_def = ctx.ce.try_eval(dkw[field], dflt.module) if field in dkw else (ok1, v_init)
         same = ok1 and ok2 and (v_init == v_def or (isinstance(v_init, (set, list)) and isinstance(v_def, (set, list)) and set(v_init) == set(v_def)))
         ctx.check(same, 'R2', at, init.qualname, f'default-agreement:{field}',
